@@ -4,6 +4,7 @@
   the 8 x 4 x 4 x 2 x 3 table of the quantifier is the case split inside the proofs.
 -/
 import PysamlModel.Proofs.Sp
+import PysamlModel.Proofs.SpFactory
 import PysamlModel.Proofs.SpComplete
 import PysamlModel.Props.C04
 import PysamlModel.Gen.SpDefaults
@@ -49,14 +50,15 @@ theorem visible_sigs_ok {cfg : Cfg} {env : Env} {rs : Bool} {st : St} {r : Respo
     | false => cases hs' : a.sig <;> simp_all [Sig.present]
     | true => have := hA.sigGood hp rfl; simp [this]
 
-/-- C01, soundness: identity is produced only if every signature present on the Response or on a
-    visible assertion verifies and the Response / assertions carry the signatures the three options
-    demand — for every configuration, clock and message. -/
-theorem C01_sound {cfg : Cfg} {env : Env} {r : Response} {o : Reported}
-    (h : process cfg env r = .identity o) :
-    sigPolicyOk cfg.wantResp cfg.wantAssert cfg.wantEither r = true := by
-  obtain ⟨_, cf, respSigned, rs, p, assertSigned, hp1, _, hv, has, hrs, heither, _⟩ := process_identity_inv h
-  obtain ⟨req, hl, hreq1, hreq2⟩ := pass1_ok_inv hp1
+/-- The signature policy established by one successful `loads()` (Response signature required iff `req`) and
+    one successful `verify()` (`require_signature = rs`): every signature present verifies, and whatever of the
+    three demands is covered by `req` / `rs` is met.  Both entry points are corollaries. -/
+theorem sigPolicyOk_of_loads_verify {cfg : Cfg} {env : Env} {req rs : Bool} {st : St} {r : Response}
+    {cf : Option String} {p : Parsed} {wr wa we : Bool}
+    (hl : loads cfg env req r = .ok cf) (hv : verify cfg env rs st r = .ok (some p))
+    (hwr : wr = true → req = true) (hwa : wa = true → rs = true)
+    (hwe : we = true → req = true ∨ rs = true) :
+    sigPolicyOk wr wa we r = true := by
   obtain ⟨hrgood, hrreq, _⟩ := loads_ok_inv hl
   have hvis := visible_sigs_ok hv
   unfold sigPolicyOk
@@ -68,35 +70,54 @@ theorem C01_sound {cfg : Cfg} {env : Env} {r : Response} {o : Reported}
     | false => cases hs : r.sig <;> simp_all [Sig.present]
     | true => have := hrgood hp; simp [this]
   have hresp_valid : req = true → r.sig = .valid := fun hq => hrgood (hrreq hq)
+  have hall_valid : rs = true → (visible r).all (fun a => a.sig == .valid) = true := by
+    intro hrs'
+    subst hrs'
+    apply List.all_eq_true.mpr
+    intro a ha
+    simp [forced_all_valid hv a ha]
   refine ⟨⟨⟨⟨hrsig, List.all_eq_true.mpr hvis⟩, ?_⟩, ?_⟩, ?_⟩
-  · cases hw : cfg.wantResp with
+  · cases hw : wr with
     | false => exact Or.inl rfl
-    | true => exact Or.inr (by simp [hresp_valid (hreq2 hw)])
-  · cases hw : cfg.wantAssert with
+    | true => exact Or.inr (by simp [hresp_valid (hwr hw)])
+  · cases hw : wa with
     | false => exact Or.inl rfl
-    | true =>
-      right
-      have hrs' : rs = true := by
-        cases hr : rs with
-        | true => rfl
-        | false => have := hrs hr; rw [hw] at this; cases this
-      subst hrs'
-      apply List.all_eq_true.mpr
-      intro a ha
-      simp [forced_all_valid hv a ha]
-  · cases hw : cfg.wantEither with
+    | true => exact Or.inr (hall_valid (hwa hw))
+  · cases hw : we with
     | false => exact Or.inl (Or.inl rfl)
     | true =>
-      rw [hw] at heither
-      simp only [Bool.true_and, Bool.and_eq_false_iff, Bool.not_eq_false'] at heither
-      rcases heither with h1 | h1
-      · exact Or.inl (Or.inr (by simp [hresp_valid (hreq1 h1)]))
-      · right
-        have hrs' := has h1
-        subst hrs'
-        apply List.all_eq_true.mpr
-        intro a ha
-        simp [forced_all_valid hv a ha]
+      rcases hwe hw with h1 | h1
+      · exact Or.inl (Or.inr (by simp [hresp_valid h1]))
+      · exact Or.inr (hall_valid h1)
+
+/-- C01, soundness: identity is produced only if every signature present on the Response or on a
+    visible assertion verifies and the Response / assertions carry the signatures the three options
+    demand — for every configuration, clock and message. -/
+theorem C01_sound {cfg : Cfg} {env : Env} {r : Response} {o : Reported}
+    (h : process cfg env r = .identity o) :
+    sigPolicyOk cfg.wantResp cfg.wantAssert cfg.wantEither r = true := by
+  obtain ⟨_, cf, respSigned, rs, p, assertSigned, hp1, _, hv, has, hrs, heither, _⟩ := process_identity_inv h
+  obtain ⟨req, hl, hreq1, hreq2⟩ := pass1_ok_inv hp1
+  refine sigPolicyOk_of_loads_verify hl hv hreq2 ?_ ?_
+  · intro hw
+    cases hr : rs with
+    | true => rfl
+    | false => have := hrs hr; rw [hw] at this; cases this
+  · intro hw
+    rw [hw] at heither
+    simp only [Bool.true_and, Bool.and_eq_false_iff, Bool.not_eq_false'] at heither
+    exact heither.elim (fun h1 => Or.inl (hreq1 h1)) (fun h1 => Or.inr (has h1))
+
+/-- C01 for the factory entry point (`saml2.response.authn_response(...)` + `loads()` + `verify()`): the factory
+    has no parameter for `want_response_signed` and `want_assertions_or_response_signed` (they keep the constructor
+    default, false), so the policy it enforces is the one with those two options off: every signature present on
+    the Response or on a visible assertion verifies, and with `want_assertions_signed` every visible assertion is
+    signed. -/
+theorem C01_sound_factory {cfg : Cfg} {env : Env} {r : Response} {o : Reported}
+    (h : processFactory cfg env r = .identity o) :
+    sigPolicyOk false cfg.wantAssert false r = true := by
+  obtain ⟨cf, p, hl, hv, _⟩ := processFactory_identity_inv h
+  exact sigPolicyOk_of_loads_verify hl hv (fun hf => by cases hf) id (fun hf => by cases hf)
 
 /-- The option defaults in the CURRENT source (regenerated table) are the ones the property names:
     want_response_signed = True, the other two False, unsolicited responses not allowed. -/
@@ -248,5 +269,20 @@ example : process (cfgOf false true false) env0 (resp .valid .absent false) = .r
 example : process (cfgOf false false false) env0 (resp .absent .corrupted true) = .rejected .sigBadAssertion := by decide
 example : process (cfgOf false false false) env0 (resp .untrusted .absent false) = .rejected .sigBadResponse := by decide
 example : (process (cfgOf false false false) env0 (resp .absent .absent false)).isIdentity = true := by decide
+
+/-! The factory entry point on the same messages.  It accepts (non-vacuity of `C01_sound_factory`); it cannot be
+    told to demand a Response signature or "either", so `sigPolicyOk` with the CONFIGURED `want_response_signed` /
+    `want_assertions_or_response_signed` does not hold of what it accepts (the two counterexamples: that is why
+    `C01_sound_factory` states the policy with those two options off); `want_assertions_signed` and every signature
+    that is present are enforced as in `process`. -/
+example : (processFactory (cfgOf true false false) env0 (resp .valid .absent false)).isIdentity = true := by decide
+example : (processFactory (cfgOf true false false) env0 (resp .absent .valid false)).isIdentity = true ∧
+    sigPolicyOk true false false (resp .absent .valid false) = false := by decide
+example : (processFactory (cfgOf false false true) env0 (resp .absent .absent false)).isIdentity = true ∧
+    sigPolicyOk false false true (resp .absent .absent false) = false := by decide
+example : processFactory (cfgOf false true false) env0 (resp .valid .absent false) = .rejected .sigMissingAssertion := by decide
+example : (processFactory (cfgOf false true false) env0 (resp .absent .valid true)).isIdentity = true := by decide
+example : processFactory (cfgOf false false false) env0 (resp .absent .corrupted true) = .rejected .sigBadAssertion := by decide
+example : processFactory (cfgOf false false false) env0 (resp .untrusted .absent false) = .rejected .sigBadResponse := by decide
 
 end C01
